@@ -1,4 +1,4 @@
-import PynguinModel.Lemmas.AssertRender
+import PynguinModel.Lemmas.AssertTrace
 /-!
 # C20 — Rendered assertions are valid Python and hold for the observed value
 
@@ -334,5 +334,139 @@ theorem C20_old_cex_isinstance :
   refine ⟨by decide, by decide, ?_, by decide, ?_⟩
   · simp [render, evalStmt, exportNs, aeval, lookup, typeExpr, exprPath, lookupPath, joinDots]
   · simp [render, Stmt.valid, typeExpr, namesValid, validIdent, Expr.valid]
+
+/-! ## The observer path: assertions recorded over a whole test case
+
+`RemoteAssertionTraceObserver` looks at the namespace after every statement and stores, per
+position, the assertions `_check_value` makes on the freshly bound variable (if primitive), on every
+watched variable and its public attributes, on the public attributes of the module under test and on
+the class attributes of the watched objects' classes.  The assertions are rendered when the test case
+is over.  `Snapshot` = the namespace after one statement with every value deep-copied (which is what
+`copy.deepcopy` in `_check_value` does); `HSnapshot` = the live namespace (items in a heap). -/
+
+/-- The snapshot of one position lies inside the domain of the partial property: distinct, non-empty
+reference paths that are no keywords; no NaN; enum classes bound; the exported namespace resolves the
+importable types. -/
+structure SnapshotOk (te : TypeEnv) (env : RenderEnv) (enums : List String)
+    (types : List (List String × TypeId)) (s : Snapshot) : Prop where
+  keys_nodup : ((s.flat (env.alias te.moduleName)).map Prod.fst).Nodup
+  srcs_ok : ∀ p, p ∈ s.flat (env.alias te.moduleName) →
+    (p.1 != "") = true ∧ p.1 ≠ "None" ∧ p.1 ≠ "True" ∧ p.1 ≠ "False"
+  nan_free : ∀ p, p ∈ s.flat (env.alias te.moduleName) → p.2.nanFree = true
+  enums_ok : ∀ p, p ∈ s.flat (env.alias te.moduleName) → p.2.enumsOk enums = true
+  env_ok : EnvOk te env (nsAt (env.alias te.moduleName) enums types s)
+
+/-- One position: whatever the watch list is, every assertion `_handle` records after a statement is
+valid and passes in the namespace of the exported test *right after that statement*. -/
+theorem C20_position_partial (te : TypeEnv) (env : RenderEnv) (enums : List String)
+    (types : List (List String × TypeId)) (pm : Nat) (s : Snapshot)
+    (hok : SnapshotOk te env enums types s) (w : List String) :
+    ∀ a, a ∈ (handle te (env.alias te.moduleName) w s).2 →
+      (render env (.fin false pm) a).valid = true ∧
+      evalStmt (nsAt (env.alias te.moduleName) enums types s) (render env (.fin false pm) a) = some true := by
+  intro a ha
+  obtain ⟨p, hp, hpa⟩ := mem_handle te _ w s a ha
+  have hs := hok.srcs_ok p hp
+  have hobs : Observed (nsAt (env.alias te.moduleName) enums types s) p.1 p.2 :=
+    ⟨hs.1, hs.2, lookup_of_mem_nodup _ p.1 p.2 hok.keys_nodup hp⟩
+  exact C20_observed_partial te env _ p.1 p.2 pm hobs hok.env_ok rfl (hok.nan_free p hp)
+    (hok.enums_ok p hp) a hpa
+
+/-- **C20 on the observer path (partial).**  For a test case whose statements all succeed: every
+assertion recorded for position `i` is valid and passes in the namespace of position `i` — the
+positions are paired with their own snapshots. -/
+theorem C20_trace_partial (te : TypeEnv) (env : RenderEnv) (enums : List String)
+    (types : List (List String × TypeId)) (pm : Nat) :
+    ∀ (ss : List Snapshot) (w : List String), (∀ s, s ∈ ss → SnapshotOk te env enums types s) →
+    ∀ p, p ∈ ss.zip (traceFrom te (env.alias te.moduleName) w ss) → ∀ a, a ∈ p.2 →
+      (render env (.fin false pm) a).valid = true ∧
+      evalStmt (nsAt (env.alias te.moduleName) enums types p.1) (render env (.fin false pm) a) = some true
+  | [], _, _, p, hp, _, _ => by simp at hp
+  | s :: r, w, hok, p, hp, a, ha => by
+      simp only [traceFrom, List.zip_cons_cons, List.mem_cons] at hp
+      rcases hp with hp | hp
+      · subst hp
+        exact C20_position_partial te env enums types pm s (hok s (by simp)) w a ha
+      · exact C20_trace_partial te env enums types pm r (nextWatch w s)
+          (fun s' hs' => hok s' (by simp [hs'])) p hp a ha
+
+/-- Later statements do not change what is recorded for earlier positions. -/
+theorem C20_trace_prefix (te : TypeEnv) (alias : String) (w : List String) (ss later : List Snapshot) :
+    (traceFrom te alias w (ss ++ later)).take ss.length = traceFrom te alias w ss := by
+  rw [traceFrom_append]
+  exact List.take_left' (traceFrom_length te alias w ss)
+
+/-- The same on live heaps: whatever the heaps of later positions look like (any in-place mutation of
+any container), the assertions recorded for the first positions are those of the shorter run —
+position `i` is a deep snapshot taken in heap `i`. -/
+theorem C20_record_prefix (fuel : Nat) (te : TypeEnv) (alias : String) (hs later : List HSnapshot)
+    (r : List (List Assertion)) (h : recordHistory fuel te alias (hs ++ later) = some r) :
+    recordHistory fuel te alias hs = some (r.take hs.length) := by
+  simp only [recordHistory, List.map_append, Option.map_eq_some_iff] at h ⊢
+  obtain ⟨ss, hss, hr⟩ := h
+  obtain ⟨a, b, ha, hb, hab⟩ := allSome_append _ _ ss hss
+  refine ⟨a, ha, ?_⟩
+  have hl : a.length = hs.length := by simpa using allSome_length _ a ha
+  rw [← hr, hab, ← hl]
+  exact (C20_trace_prefix te alias [] a b).symm
+
+/-- A deep copy is the observed value, whatever the heap looks like when the assertion is rendered. -/
+theorem C20_deep_snapshot (fuel : Nat) (hObs hEnd : Heap) (it : Item) :
+    expectedAtRender fuel .deep hObs hEnd it = reify hObs fuel it := rfl
+
+/-- Why flat collections are indifferent to the copy depth: a container that holds only immutable
+values is the same under a shallow and a deep copy. -/
+theorem C20_shallow_eq_deep_of_flat (fuel : Nat) (hObs hEnd : Heap) (a : Nat) (c : Cell)
+    (hc : hObs.get a = some c) (hflat : ∀ it, it ∈ c.items → ∃ v, it = .imm v) :
+    expectedAtRender (fuel + 1) .shallow hObs hEnd (.ref a) =
+      expectedAtRender (fuel + 1) .deep hObs hEnd (.ref a) := by
+  simp only [expectedAtRender, reify, hc, Option.bind_some]
+  apply reifyCell_congr
+  intro it hit
+  obtain ⟨v, hv⟩ := hflat it hit
+  rw [hv, reify_imm, reify_imm]
+
+/-- `obj.rows == [[1], [2]]` observed after statement 0 … -/
+def cexHeapObs : Heap :=
+  [(0, .list [.ref 1, .ref 2]), (1, .list [.imm (.int 1)]), (2, .list [.imm (.int 2)])]
+/-- … and a later statement does `obj.rows[0].append(2)`. -/
+def cexHeapEnd : Heap :=
+  [(0, .list [.ref 1, .ref 2]), (1, .list [.imm (.int 1), .imm (.int 2)]), (2, .list [.imm (.int 2)])]
+
+/-- Why the copy must be deep: with a shallow copy (or none) the assertion recorded for position 0
+shows the *later* inner list, and the rendered `assert var_0.rows == [[1, 2], [2]]` is false for the
+value observed at position 0. -/
+theorem C20_shallow_copy_cex :
+    let observed : AVal := .list [.list [.int 1], .list [.int 2]]
+    let later : AVal := .list [.list [.int 1, .int 2], .list [.int 2]]
+    reify cexHeapObs 4 (.ref 0) = some observed ∧
+    expectedAtRender 4 .deep cexHeapObs cexHeapEnd (.ref 0) = some observed ∧
+    expectedAtRender 4 .shallow cexHeapObs cexHeapEnd (.ref 0) = some later ∧
+    expectedAtRender 4 .alias cexHeapObs cexHeapEnd (.ref 0) = some later ∧
+    evalStmt (exportNs "var_0.rows" observed)
+      (render ⟨fun m => m ++ "_"⟩ (.fin false 1) (.object "var_0.rows" later)) = some false := by
+  refine ⟨rfl, rfl, rfl, rfl, ?_⟩
+  simp [render, evalStmt, exportNs, aeval, aevalList, lookup, valueToCst, valuesToCst, intLiteral, pyEq,
+    pyEqList, toDigits, ofDigits]
+
+/-- A flat list mutated in place: a shallow copy still protects it, no copy at all does not. -/
+theorem C20_no_copy_cex :
+    let hObs : Heap := [(0, .list [.imm (.int 1)])]
+    let hEnd : Heap := [(0, .list [.imm (.int 1), .imm (.int 2)])]
+    expectedAtRender 4 .shallow hObs hEnd (.ref 0) = reify hObs 4 (.ref 0) ∧
+    expectedAtRender 4 .alias hObs hEnd (.ref 0) = some (.list [.int 1, .int 2]) ∧
+    reify hObs 4 (.ref 0) = some (.list [.int 1]) := ⟨rfl, rfl, rfl⟩
+
+/-- Non-vacuity of `SnapshotOk` / `C20_trace_partial`: an object with a nested list attribute, a class
+attribute and a module attribute. -/
+example :
+    let te : TypeEnv := ⟨"sut", fun t => t == ⟨"sut", ["Grid"]⟩ || t == ⟨"builtins", ["list"]⟩⟩
+    let s : Snapshot := ⟨"var_0",
+      [("var_0", .inst ⟨"sut", ["Grid"]⟩ none [("rows", .list [.list [.int 1], .list [.int 2]])])],
+      [("REG", .plain (.dict [(.str [107], .list [.none])]))],
+      [(⟨"sut", ["Grid"]⟩, [("count", .plain (.int 3))])]⟩
+    (handle te "sut_" [] s).2.length = 4 ∧
+    ((s.flat "sut_").map Prod.fst).Nodup := by
+  refine ⟨by decide, by decide⟩
 
 end PynguinModel.AssertRender
